@@ -30,14 +30,7 @@ def ob_coherent_after_history(p0: bool, t0: int, g0: List[int], p1: bool, t1: in
     post: _.startswith("ok")
     """
     logging.disable(logging.CRITICAL)
-    real_lru_cache()   # caches in the index code keep their real semantics; cleared per run
-    from nostr_relay.storage import kv as _kv
-    fresh_module_state(_kv)
-    for _ix in _kv.INDEXES.values():
-        for _name in ("to_key", "convert"):
-            _f = getattr(type(_ix), _name, None)
-            if hasattr(_f, "cache_clear"):
-                _f.cache_clear()
+    _reset_caches()
     env, e0, e1, last, s1, s2, s3 = K.run(SCN, p0, t0, g0, p1, t1, g1, X)
     err = W.coherence_error(env)
     if err:
@@ -74,4 +67,71 @@ def ob_write_clear_symmetry(p: bool, kind: int, ts: int, g: List[int], dup: bool
     W.run_writer(env, [("del", [ev.id])])
     if env.keys != [W.L.TOMBSTONE]:
         return "after delete %d keys remain: %r" % (len(env.keys), [k.hex()[:20] for k in env.keys])
+    return "ok"
+
+
+NUMVALS = (5, 5.0, True, 1, "5", 1.0, "1")
+
+
+def _reset_caches():
+    real_lru_cache()   # caches in the index code keep their real semantics; cleared per run
+    from nostr_relay.storage import kv as _kv
+    fresh_module_state(_kv)
+    for _ix in _kv.INDEXES.values():
+        for _name in ("to_key", "convert"):
+            _f = getattr(type(_ix), _name, None)
+            if hasattr(_f, "cache_clear") and callable(_f.cache_clear):
+                _f.cache_clear()
+
+
+@obligation(funcs=["storage.kv.TagIndex.convert", "storage.kv.TagIndex.to_key", "storage.kv.WriterThread.run",
+                   "storage.kv.WriterThread._delete_event"],
+            timeout=(350, 1200),
+            bounds="two events whose t tag carries values that are equal across JSON types (5, 5.0, true, 1, '5', 1.0, '1' by "
+                   "symbolic selector), created_at symbolic; add e0, add e1, delete e1 (or e0): coherent after every step")
+def ob_numeric_tag_values(v0: int, v1: int, t0: int, t1: int, del_first: bool) -> str:
+    """
+    pre: 0 <= v0 < 7 and 0 <= v1 < 7 and 1 <= t0 <= 200 and 1 <= t1 <= 200
+    pre: THOROUGH or (v0 < 5 and v1 < 5 and not del_first)
+    post: _.startswith("ok")
+    """
+    logging.disable(logging.CRITICAL)
+    _reset_caches()
+    from vk.ob import pick
+    e0 = W.make_event(0, 0, 1, t0, [["t", pick(NUMVALS, v0)]])
+    e1 = W.make_event(1, 0, 1, t1, [["t", pick(NUMVALS, v1)]])
+    env = W.new_env()
+    for task in (("add", [e0]), ("add", [e1]), ("del", [e0.id if del_first else e1.id])):
+        W.run_writer(env, [task])
+        err = W.coherence_error(env)
+        if err:
+            return "after %s: %s (tag values %r, %r)" % (task[0], err, pick(NUMVALS, v0), pick(NUMVALS, v1))
+    return "ok"
+
+
+FCASES = [(1, 0), (2, 0), (3, 0)]     # replacing, parameterised-replacing, kind-5 deleting
+
+
+@obligation(funcs=["storage.kv.WriterThread.run", "storage.kv.WriterThread._post_save", "storage.kv.WriterThread._delete_event"],
+            params=range(3), timeout=(450, 1800),
+            bounds="history interrupted by an injected engine failure: store {e0}; 'add e1' (replacing / parameterised-replacing / "
+                   "deleting e0) with the k-th mutation failing (k symbolic 1..13; quick tier 7 positions), then 'add e2': the store "
+                   "is coherent afterwards")
+def ob_coherent_under_fault(p1: bool, t0: int, t1: int, k: int) -> str:
+    """
+    pre: 1 <= t0 <= 200 and 1 <= t1 <= 200 and 1 <= k <= 13
+    pre: THOROUGH or k in (1, 2, 5, 6, 7, 9, 11)
+    post: _.startswith("ok")
+    """
+    logging.disable(logging.CRITICAL)
+    scn, x = FCASES[PARAM % 3]
+    e0, e1, last = K.build(scn, 0, t0, [], 1 if p1 else 0, t1, [0] if scn == 3 else [], x)
+    e2 = W.make_event(4, 0, 1, 7, [["e", "later"]])
+    env = W.new_env()
+    W.run_writer(env, [("add", [e0])])
+    env.fail_at = env.mutations + k
+    W.run_writer(env, [("add", [e1]), ("add", [e2])])
+    err = W.coherence_error(env)
+    if err:
+        return "after a failure at mutation %d: %s" % (k, err)
     return "ok"
